@@ -47,6 +47,13 @@ def transfer(draw, cfg, allow_none=True):
         lost = draw(st.lists(st.integers(0, nseg - 1), min_size=1, max_size=6, unique=True))
         t["faults"] = [["FD", i, "drop", 0] for i in sorted(lost)] + draw(S.fault_schedules(max_faults=1, actions=("drop", "dup", "delay")))
         return t
+    if draw(st.integers(0, 7)) == 0:
+        # return link down: every acknowledgement is lost, so both positive ACK procedures run to their limits and the
+        # re-sent EOF PDUs keep arriving while the receiver waits for the ACK of its Finished PDU (cancellation, then
+        # abandonment, possibly in a call that has already queued a PDU)
+        t = {"file": draw(S.file_specs(cfg, max_bytes=200, max_segments=5, allow_none=False)), "req_mode": "ACK", "req_closure": draw(st.sampled_from([None, True, False]))}
+        t["faults"] = [["ACK_EOF", 0, "dropall", 0], ["ACK_FIN", 0, "dropall", 0]] + ([["NAK", 0, "dropall", 0]] if draw(st.booleans()) else [])
+        return t
     t = {"file": draw(S.file_specs(cfg, max_bytes=400, max_segments=10, allow_none=allow_none))}
     t["req_mode"] = draw(st.sampled_from([None, None, "ACK", "NAK"]))
     t["req_closure"] = draw(st.sampled_from([None, None, True, False]))
